@@ -2081,6 +2081,72 @@ def m_into(I, st, t, args, site, depth):
         return None
 
 
+def m_wrapping(I, st, t, args, site, depth):
+    """wrapping_add / wrapping_sub / wrapping_neg as plain (modular) affine arithmetic — the rules reason modulo 2^n where
+    wrap-around matters (C07.R2) by looking at the call term, so keep the call as an atom and only fold constants"""
+    name = t.callee.name
+    oty = (t.callee.self_ty or "").split("::")[-1] if t.callee.self_ty else None
+    bits = INT_BITS.get(oty)
+    if bits and all(isinstance(a, int) for a in args):
+        m = (1 << bits) - 1
+        if name == "wrapping_add":
+            return [(st, (args[0] + args[1]) & m)]
+        if name == "wrapping_sub":
+            return [(st, (args[0] - args[1]) & m)]
+        if name == "wrapping_neg":
+            return [(st, (-args[0]) & m)]
+    return None
+
+
+def m_fetch_update(I, st, t, args, site, depth):
+    """Atomic::fetch_update(set, fetch, |v| Some(v (+|-) n)) is fetch_add / fetch_sub of n: recognised when the closure maps
+    the current value to a wrapping sum/difference with something that does not depend on it; anything else stays a
+    fetch_update (an overwrite of the atomic)"""
+    if len(args) < 4:
+        return None
+    cur = ("atomic_cur", site)
+    outs = I.invoke(st.fork(), args[3], [cur], depth, site)
+    if len(outs) != 1:
+        return None
+    s2, r = outs[0]
+    if not (isinstance(r, Struct) and r.variant == "Some"):
+        return None
+    new = tform(r.get("0"))
+    op = amount = None
+    if isinstance(new, tuple) and new and new[0] == "call" and new[1].split("::")[-1] in ("wrapping_add", "wrapping_sub") and len(new[3]) == 2 and new[3][0] == cur and cur not in atoms(new[3][1]):
+        op = "fetch_add" if new[1].endswith("wrapping_add") else "fetch_sub"
+        amount = new[3][1]
+    else:
+        d = lin_add(new, cur, -1)
+        if d is not None and cur not in atoms(d) and not (isinstance(d, int) and d < 0):
+            op, amount = "fetch_add", d
+        else:
+            d2_ = lin_add(cur, new, -1)
+            if d2_ is not None and cur not in atoms(d2_):
+                op, amount = "fetch_sub", d2_
+    if op is None:
+        return None
+    name = "std::sync::atomic::Atomic::" + op
+    snap = [I.snapshot(s2, args[0]), amount, args[1]]
+    res = ("call", name, site, tuple(tform(a) for a in snap))
+    s2.events.append(Event("call", name, snap, site, t.span, tuple(I.ctx), res, t.callee, extra={"via": "fetch_update"}))
+    return [(s2, Ok(res))]
+
+
+def m_fetch_add(I, st, t, args, site, depth):
+    """fetch_add(n.wrapping_neg()) is fetch_sub(n) (identical modular arithmetic): present it as such"""
+    if len(args) < 2:
+        return None
+    a = tform(args[1])
+    if isinstance(a, tuple) and a and a[0] == "call" and a[1].endswith("wrapping_neg") and len(a[3]) == 1:
+        name = "std::sync::atomic::Atomic::fetch_sub"
+        snap = [I.snapshot(st, args[0]), a[3][0]] + [I.snapshot(st, x) for x in args[2:]]
+        res = ("call", name, site, tuple(tform(x) for x in snap))
+        st.events.append(Event("call", name, snap, site, t.span, tuple(I.ctx), res, t.callee, extra={"via": "fetch_add(wrapping_neg)"}))
+        return [(st, res)]
+    return None
+
+
 def m_unwrap_or(I, st, t, args, site, depth):
     v = args[0]
     if isinstance(v, Struct) and v.variant in ("Ok", "Some"):
@@ -2200,6 +2266,9 @@ DEFAULT_MODELS = {
     "std::result::Result::and": m_or_else,
     "core::bool::then_some": m_then,
     "core::bool::then": m_then,
+    "std::sync::atomic::Atomic::fetch_add": m_fetch_add,
+    "std::sync::atomic::Atomic::fetch_update": m_fetch_update,
+    "std::sync::atomic::AtomicU64::fetch_update": m_fetch_update,
     "std::convert::TryFrom::try_from": m_try_from_int,
     "std::convert::From::from": m_from_int,
     "std::option::Option::unwrap_or": m_unwrap_or,
@@ -2217,6 +2286,9 @@ DEFAULT_MODELS = {
 }
 DEFAULT_MODELS = {k: v for k, v in DEFAULT_MODELS.items() if v is not None}
 SUFFIX_MODELS = [
+    ("::wrapping_add", m_wrapping),
+    ("::wrapping_sub", m_wrapping),
+    ("::wrapping_neg", m_wrapping),
     ("::from_be_bytes", m_from_be_bytes),
     ("::saturating_sub", m_saturating),
     ("::saturating_add", m_saturating),
